@@ -14,7 +14,10 @@ class MirContext:
         self.scratch = Scratch("mir")
         t0 = time.time()
         try:
-            self.scratch.standalone_workspace()
+            # logging is modelled by no-op macros (the expansion of tracing's macros is not the
+            # subject of any property and would only add unmodelled callees to the MIR)
+            self.scratch.use_models(names=("tracing",))
+            self.cuts = list(self.scratch.cuts)
             path = os.path.join(self.scratch.dir, "arroy.mir")
             import subprocess
             cmd = ["cargo", "+nightly", "rustc", "--offline", "--lib", "--target-dir",
@@ -26,6 +29,9 @@ class MirContext:
             if p.returncode != 0 or os.path.getsize(path) < 1000:
                 errs = [l for l in p.stderr.splitlines() if l.startswith("error")][:5]
                 raise RuntimeError("MIR dump failed: " + " | ".join(errs))
+            if os.environ.get("VERIF_MIR_COPY"):
+                import shutil
+                shutil.copy(path, os.environ["VERIF_MIR_COPY"])
             self.fns = mir.parse_mir(path)
             self.structs, self.enums = mir.parse_layouts(os.path.join(self.scratch.repo, "src"))
             sp = os.path.join(self.scratch.repo, "src", "spaces", "simple.rs")
